@@ -669,4 +669,212 @@ theorem wire_cells {rows : Nat} {d : ColumnData} {cs : List Val} (h : wireCells 
       exact ⟨.mixed data, rfl, h⟩
     · cases h
 
+/-! ### Client buffer: tables are independent -/
+
+/-- `entry(table).or_default()` view of the buffer. -/
+def getTable (b : Buffer) (tname : String) : Table := (b.lookup tname).getD Table.new
+
+/-- Rows logged for table `tname`, in order. -/
+def rowsOf (tname : String) (evs : List Event) : List (List (String × Val) × Nat) :=
+  (evs.filter fun e => e.1 == tname).map (·.2)
+
+theorem logEvent_spec (tname : String) (row : List (String × Val)) (clock : Nat) :
+    ∀ (b : Buffer) (t' : Table), pushRow (getTable b tname) row clock = .ok t' →
+    ∃ b', logEvent b tname row clock = .ok b' ∧ getTable b' tname = t' ∧
+      (∀ u, u ≠ tname → getTable b' u = getTable b u) ∧
+      (∀ u, (b'.lookup u).isSome = ((b.lookup u).isSome || u == tname))
+  | [], t', h => by
+    simp only [getTable, List.lookup_nil, Option.getD_none] at h
+    refine ⟨[(tname, t')], by simp [logEvent, h], by simp [getTable, List.lookup_cons], ?_, ?_⟩
+    · intro u hu
+      have : (u == tname) = false := by simpa using hu
+      simp [getTable, List.lookup_cons, this]
+    · intro u
+      by_cases hu : u = tname
+      · subst hu; simp [List.lookup_cons]
+      · have : (u == tname) = false := by simpa using hu
+        simp [List.lookup_cons, this]
+  | (k, t) :: rest, t', h => by
+    by_cases hk : k = tname
+    · subst hk
+      simp only [getTable, List.lookup_cons, beq_self_eq_true, Option.getD_some] at h
+      refine ⟨(k, t') :: rest, by simp [logEvent, h], by simp [getTable, List.lookup_cons], ?_, ?_⟩
+      · intro u hu
+        have : (u == k) = false := by simpa using hu
+        simp [getTable, List.lookup_cons, this]
+      · intro u
+        by_cases hu : u = k
+        · subst hu; simp [List.lookup_cons]
+        · have : (u == k) = false := by simpa using hu
+          simp [List.lookup_cons, this]
+    · have hb : (tname == k) = false := by simpa using (Ne.symm hk)
+      have h' : pushRow (getTable rest tname) row clock = .ok t' := by
+        simpa [getTable, List.lookup_cons, hb] using h
+      obtain ⟨r, e, g1, g2, g3⟩ := logEvent_spec tname row clock rest t' h'
+      refine ⟨(k, t) :: r, by simp [logEvent, hk, e], ?_, ?_, ?_⟩
+      · simpa [getTable, List.lookup_cons, hb] using g1
+      · intro u hu
+        by_cases huk : u = k
+        · subst huk; simp [getTable, List.lookup_cons]
+        · have hf : (u == k) = false := by simpa using huk
+          have := g2 u hu
+          simpa [getTable, List.lookup_cons, hf] using this
+      · intro u
+        by_cases huk : u = k
+        · subst huk; simp [List.lookup_cons]
+        · have hf : (u == k) = false := by simpa using huk
+          simpa [List.lookup_cons, hf] using g3 u
+
+theorem rowsOf_cons_self (tname : String) (row : List (String × Val)) (clock : Nat) (rest : List Event) :
+    rowsOf tname ((tname, row, clock) :: rest) = (row, clock) :: rowsOf tname rest := by
+  simp [rowsOf, List.filter_cons]
+
+theorem rowsOf_cons_ne {u tname : String} (h : u ≠ tname) (row : List (String × Val)) (clock : Nat)
+    (rest : List Event) : rowsOf u ((tname, row, clock) :: rest) = rowsOf u rest := by
+  have : (tname == u) = false := by simpa using (Ne.symm h)
+  simp [rowsOf, List.filter_cons, this]
+
+/-- All events: every table of the buffer is `pushRows` of the rows logged for it — tables do not interfere —
+    and a table exists in the buffer iff it was there before or some event names it. -/
+theorem logAll_spec : ∀ (evs : List Event) (b : Buffer),
+    (∀ u, ∃ t', pushRows (getTable b u) (rowsOf u evs) = .ok t') →
+    ∃ b', logAll b evs = .ok b' ∧
+      (∀ u, pushRows (getTable b u) (rowsOf u evs) = .ok (getTable b' u)) ∧
+      (∀ u, (b'.lookup u).isSome = ((b.lookup u).isSome || evs.any fun e => e.1 == u))
+  | [], b, _ => ⟨b, rfl, fun u => by simp [rowsOf, pushRows], fun u => by simp⟩
+  | (tname, row, clock) :: rest, b, hok => by
+    obtain ⟨tfin, hfin⟩ := hok tname
+    rw [rowsOf_cons_self] at hfin
+    simp only [pushRows] at hfin
+    cases hp : pushRow (getTable b tname) row clock with
+    | error f => rw [hp] at hfin; cases hfin
+    | ok t1 =>
+      rw [hp] at hfin
+      obtain ⟨b1, e1, g1, g2, g3⟩ := logEvent_spec tname row clock b t1 hp
+      have hok1 : ∀ u, ∃ t', pushRows (getTable b1 u) (rowsOf u rest) = .ok t' := by
+        intro u
+        by_cases hu : u = tname
+        · subst hu; rw [g1]; exact ⟨tfin, hfin⟩
+        · obtain ⟨t', ht'⟩ := hok u
+          rw [rowsOf_cons_ne hu] at ht'
+          exact ⟨t', by rw [g2 u hu]; exact ht'⟩
+      obtain ⟨b', e2, p2, k2⟩ := logAll_spec rest b1 hok1
+      refine ⟨b', by simp [logAll, e1, e2], ?_, ?_⟩
+      · intro u
+        by_cases hu : u = tname
+        · subst hu
+          rw [rowsOf_cons_self]
+          simp only [pushRows, hp]
+          have := p2 u
+          rw [g1] at this
+          exact this
+        · rw [rowsOf_cons_ne hu, ← g2 u hu]; exact p2 u
+      · intro u
+        rw [k2 u, g3 u]
+        by_cases hu : u = tname
+        · subst hu; simp
+        · have h1 : (u == tname) = false := by simpa using hu
+          have h2 : (tname == u) = false := by simpa using (Ne.symm hu)
+          simp [h1, h2]
+
+/-- Messages of a session in which every tick's POST succeeds: split the logged events at the ticks. -/
+def batches : List Event → List Step → List (List Event)
+  | cur, [] => [cur]
+  | cur, .log e :: rest => batches (cur ++ [e]) rest
+  | cur, .tick :: rest => cur :: batches [] rest
+
+theorem logAll_append : ∀ (a c : List Event) (b : Buffer),
+    logAll b (a ++ c) = match logAll b a with | .error f => .error f | .ok b' => logAll b' c
+  | [], c, b => by simp [logAll]
+  | (tname, row, clock) :: a, c, b => by
+    simp only [List.cons_append, logAll]
+    cases logEvent b tname row clock with
+    | error f => rfl
+    | ok b1 => exact logAll_append a c b1
+
+/-- What a session must send: one request per non-empty batch between ticks (each built from an empty
+    buffer), the last batch stays in the buffer. -/
+def sessionSpec : List (List Event) → Except Fault (List Buffer × Buffer)
+  | [] => .ok ([], [])
+  | [last] =>
+    match logAll [] last with
+    | .error f => .error f
+    | .ok b => .ok ([], b)
+  | cur :: next :: rest =>
+    match logAll [] cur with
+    | .error f => .error f
+    | .ok b =>
+      match sessionSpec (next :: rest) with
+      | .error f => .error f
+      | .ok (msgs, fin) => .ok (if b.isEmpty then msgs else b :: msgs, fin)
+
+theorem batches_cons (cur : List Event) (steps : List Step) : ∃ x xs, batches cur steps = x :: xs := by
+  induction steps generalizing cur with
+  | nil => exact ⟨cur, [], rfl⟩
+  | cons st rest ih =>
+    cases st with
+    | log e => exact ih (cur ++ [e])
+    | tick => exact ⟨cur, _, rfl⟩
+
+theorem batches_head_prefix (cur : List Event) (steps : List Step) :
+    ∃ ext xs, batches cur steps = (cur ++ ext) :: xs := by
+  induction steps generalizing cur with
+  | nil => exact ⟨[], [], by simp [batches]⟩
+  | cons st rest ih =>
+    cases st with
+    | log e =>
+      obtain ⟨ext, xs, h⟩ := ih (cur ++ [e])
+      exact ⟨e :: ext, xs, by simp [batches, h]⟩
+    | tick => exact ⟨[], batches [] rest, by simp [batches]⟩
+
+theorem sessionSpec_error {x : List Event} {f : Fault} (h : logAll [] x = .error f) (xs : List (List Event)) :
+    sessionSpec (x :: xs) = .error f := by
+  cases xs with
+  | nil => simp [sessionSpec, h]
+  | cons y ys => simp [sessionSpec, h]
+
+theorem logAll_error_append {b : Buffer} {a : List Event} {f : Fault} (h : logAll b a = .error f)
+    (c : List Event) : logAll b (a ++ c) = .error f := by
+  rw [logAll_append, h]
+
+/-- The session loop sends exactly the specified requests: events are neither lost, duplicated nor moved
+    across a flush boundary, and every request is built from an empty buffer. -/
+theorem session_spec : ∀ (steps : List Step) (cur : List Event) (b : Buffer),
+    logAll [] cur = .ok b → session b steps = sessionSpec (batches cur steps)
+  | [], cur, b, h => by simp [session, batches, sessionSpec, h]
+  | .log (tname, row, clock) :: rest, cur, b, h => by
+    simp only [session, batches]
+    have happ : logAll [] (cur ++ [(tname, row, clock)]) =
+        match logEvent b tname row clock with | .error f => .error f | .ok b' => .ok b' := by
+      rw [logAll_append, h]
+      simp only [logAll]
+      cases logEvent b tname row clock <;> rfl
+    cases he : logEvent b tname row clock with
+    | error f =>
+      rw [he] at happ
+      obtain ⟨ext, xs, hb⟩ := batches_head_prefix (cur ++ [(tname, row, clock)]) rest
+      rw [hb]
+      exact (sessionSpec_error (logAll_error_append happ ext) xs).symm
+    | ok b' =>
+      rw [he] at happ
+      exact session_spec rest _ b' happ
+  | .tick :: rest, cur, b, h => by
+    obtain ⟨x, xs, hb⟩ := batches_cons [] rest
+    have ih := session_spec rest [] [] rfl
+    simp only [session, batches, createRequestData]
+    rw [hb] at ih ⊢
+    cases b with
+    | nil =>
+      simp only [List.isEmpty_nil, if_true, sessionSpec, h]
+      rw [ih]
+      cases sessionSpec (x :: xs) with
+      | error f => rfl
+      | ok r => simp
+    | cons p ps =>
+      simp only [List.isEmpty_cons, sessionSpec, h, Bool.false_eq_true, if_false]
+      rw [ih]
+      cases sessionSpec (x :: xs) with
+      | error f => rfl
+      | ok r => simp
+
 end LM.Wire.EventBuffer
